@@ -1750,9 +1750,11 @@ func c01ControllerRoutesError(c *Ctx, fn *ssa.Function, call *ssa.Call, isReport
 		}
 		return false
 	}
+	// returns that a possibly non-nil error of the call can reach (paths that pass a successful nil
+	// test of the error are not followed)
 	reach := map[*ssa.BasicBlock]bool{}
-	for _, in := range reachableAfter(call, nil) {
-		reach[in.Block()] = true
+	for _, r := range p.returnsReachedWithErr(call, carries) {
+		reach[r.Block()] = true
 	}
 	var problems []string
 	checked := 0
